@@ -1,8 +1,8 @@
 """C07 — no execution is planned outside a job's start..stop window."""
 from __future__ import annotations
 
-from .. import core, gen, impl_thr, scen
-from . import c01
+from .. import core, gen, impl_thr, runlib, scen
+from . import c01, c08
 
 ID = "C07"
 BUDGET = {"quick": 2400, "thorough": 300000}
@@ -106,7 +106,8 @@ def specs(r):
                     o2 = jobs[k][0]
                     stop = o2["stop"][0] - (o2["stop"][1] or 0)
                     qs.append((f"spec le {due_seen} {stop}", {"what": "invocations_within_stop", "key": k, "op": i}))
-    return qs
+    # "removed by the call after which its next due time WOULD exceed stop" - the next due time by the Spec, not as reported
+    return qs + runlib.stop_retirement_specs(r, c08.tms_tokens)
 
 
 def classes(r):
